@@ -377,6 +377,48 @@ class Unit(object):
                            'sentinels' % (seen['n'], seen['bad_pos'], seen['bad_kw']), self.rank(shape))
 
 
+def zero_order(acc, fname, method, order):
+    """n = 0 (the function value itself comes back through the same machinery): shape kept, every element equal to
+    f at that element, extra arguments forwarded on every evaluation."""
+    s1, s2, s3 = object(), [1.5, 'payload'], {'k': object()}
+    f = FUNCS[fname]
+    for shape in SHAPES:
+        size = int(np.prod(shape)) if shape else 1
+        seen = {'n': 0, 'bad_pos': 0, 'bad_kw': 0}
+
+        def g(x, *args, **kwds):
+            seen['n'] += 1
+            if not (len(args) == 2 and args[0] is s1 and args[1] is s2):
+                seen['bad_pos'] += 1
+            if not (set(kwds) == {'tag', 'opt'} and kwds['tag'] is s3 and kwds['opt'] is s1):
+                seen['bad_kw'] += 1
+            return f(x)
+        x = np.array([POOL[i % len(POOL)] for i in range(size)], dtype=float).reshape(shape)
+        case = dict(func=fname, method=method, n=0, order=order, kind='zero-order', shape=list(shape))
+        head = 'Derivative(%s, method=%r, n=0, order=%d)' % (fname, method, order)
+        acc.evaluations += 1
+        try:
+            der, _ = call_lib(fname, method, 0, order, x, (s1, s2), dict(tag=s3, opt=s1), fun=g)
+        except Failed as e:
+            acc.case((fname, method, 0, order, shape, 'zero-order'), nontrivial=True, cell=['zero-order/%s' % method], outcome='raised')
+            acc.violation('C08:Derivative:raised-%s:zero-order' % e.kind, case, '%s: call with *args/**kwds raised %s' % (head, e), size)
+            continue
+        with np.errstate(all='ignore'):
+            want = np.asarray(f(x))
+        prob = None
+        if der.shape != np.shape(x):
+            prob = ('shape', 'x of shape %r gave a result of shape %r' % (np.shape(x), der.shape))
+        elif seen['n'] == 0 or seen['bad_pos'] or seen['bad_kw']:
+            prob = ('args-not-forwarded', '%d evaluations of f: %d without the positional sentinels, %d without the '
+                    'keyword sentinels' % (seen['n'], seen['bad_pos'], seen['bad_kw']))
+        elif not np.all(bits_equal(np.asarray(der, dtype=want.dtype), want)):
+            prob = ('zero-order-value', 'n=0 result %s differs from f(x) = %s' % (_txt(der), _txt(want)))
+        acc.case((fname, method, 0, order, shape, 'zero-order'), nontrivial=True, cell=['zero-order/%s' % method],
+                 outcome=prob is None, n_eval=0)
+        if prob:
+            acc.violation('C08:Derivative:%s:zero-order' % prob[0], case, '%s: %s' % (head, prob[1]), size)
+
+
 def positions_for(shape, quick, seed):
     size = int(np.prod(shape)) if shape else 1
     pos = list(range(size))
@@ -417,6 +459,8 @@ def quick_targets(seed):
 def work(chunk, quick=True, seed=0, targets=None, rotations=None):
     acc = fw.Acc()
     for fname, method, n, order in chunk:
+        if n == 1:
+            zero_order(acc, fname, method, order)
         u = Unit(acc, fname, method, n, order)
         u.scalars()
         for shape in SHAPES:
@@ -451,6 +495,7 @@ def run(ctx):
     req += ['args/%s' % m for m in METHODS] + ['pattern/mixed', 'position/first', 'position/last',
                                                'position/inner']
     req += ['neighbours/real-step/%s' % c for c in ('finite', 'partial-nan', 'all-nan')]
+    req += ['zero-order/%s' % m for m in METHODS]
     req += ['layout/' + l for l in ('fortran', 'transposed-view', 'strided-view', 'reversed-view', 'nested-list', 'integer-dtype')]
     req += ['neighbours/%s/finite' % m for m in ('complex', 'multicomplex')]
     rule = ('%d shapes x 6 exactly-rounded elementwise functions x %d (method, n, order) configurations (5 methods, '
@@ -478,6 +523,10 @@ def run(ctx):
 
 def replay(case):
     acc = fw.Acc()
+    if case['kind'] == 'zero-order':
+        zero_order(acc, case['func'], case['method'], case['order'])
+        bad = ['%s :: %s' % (k, r['detail']) for k, (n, recs) in sorted(acc.viol.items()) for r in recs[:1]]
+        return not bad, 'case=%r -> %s' % (case, bad or 'ok')
     u = Unit(acc, case['func'], case['method'], case['n'], case['order'])
     shape = tuple(case.get('shape') or ())
     kind = case['kind']
